@@ -269,6 +269,9 @@ pub fn diff_class(abi: &Abi, ty: &Type, a: &crate::norm::Node, b: &crate::norm::
             _ => shape_class(abi, ty, 1),
         };
         match (abi.shape(ty), a, b) {
+            // differences inside a fixed-length list with heap elements are reported as that list
+            // (its lowering is generated by a separate path)
+            (Shape::FixedList(et, _), _, _) if abi.contains_heap(&et) => shape_class(abi, ty, 1),
             (Shape::Record(fs), Node::Rec(x), Node::Rec(y)) if x.len() == y.len() && x.len() == fs.len() => {
                 let d: Vec<usize> = (0..x.len()).filter(|i| x[*i] != y[*i]).collect();
                 if d.len() == 1 {
